@@ -38,7 +38,7 @@ RULE = ("class hierarchies of 1..4 class statements (plus up to 3 extra front-en
         "between, field names from {a,b,c,_d,__e,_a}; every decorated class in {attr.s legacy, "
         "attr.s(collect_by_mro=True), define (auto_attribs inferred/True/False, slots on/off), "
         "make_class (list/dict), these=} x {attr.ib in body (incl. pre-created objects whose creation "
-        "order differs from the textual order), annotations (plain / field / ClassVar in 9 spellings, "
+        "order differs from the textual order), annotations (plain / field / ClassVar in 12 spellings, "
         "quoted, decoys; with and without `from __future__ import annotations`), these, make_class}, "
         "class-level kw_only, per field default in {none, value, Factory, Factory(takes_self)}, init, "
         "kw_only, alias (incl. empty and colliding), type=/annotation (incl. both), 10 kinds of "
@@ -1039,7 +1039,11 @@ def distribution(cases):
                 fts[s["ft"][0]] += 1
     return {"classes_per_case": dict(sorted(nclasses.items())), "front_ends": dict(kinds),
             "outcomes": dict(outcomes), "transformers": dict(fts), "shapes": dict(shapes),
-            "equivalence_pairs": sum(len(c.inp["pairs"]) for c in cases)}
+            "equivalence_pairs": sum(len(c.inp["pairs"]) for c in cases),
+            "equivalence_pairs_equal": sum(1 for c in cases for e in c.seen["eq"] if e),
+            "future_annotations_modules": sum(1 for c in cases if c.inp["future"]),
+            "inherited_fields_seen": sum(1 for c in cases for ob in c.seen["classes"]
+                                         for f in ob.get("fields", ()) if f["inh"])}
 
 
 # --------------------------------------------------------------------------------------
